@@ -163,7 +163,38 @@ pub static C13: CheckSpec = CheckSpec {
     assumptions: &["quiescence = horizon reached with no harness event pending, all requests terminal and every challenge older than request_timeout"],
 };
 
-pub static ALL: &[&CheckSpec] = &[&C04, &C07, &C08, &C09, &C10, &C13, &C16, &C18, &C19];
+pub static C01: CheckSpec = CheckSpec {
+    id: "C01",
+    level: "exploration",
+    scenarios: &[Scenario { name: "identity-adversary", weight: 1, run: worlds::h_adv::run_c01 }],
+    runs_quick: 20_000,
+    runs_thorough: 600_000,
+    cap_quick_s: 75,
+    cap_thorough_s: 1200,
+    rule: "one run = a victim handler, 1-2 genuine peers (one possibly not running) and an adversary without any honest secret key; the victim's application knows the genuine record, nothing, or a stale record; 1-3 attacks = random packet claiming a genuine id from the attacker's or the genuine (spoofed) address, then a handshake answering the victim's WHOAREYOU with record in {own (seq below/equal/above), genuine (replayed), none, own with the genuine address}, signer in {attacker key, garbage, replayed genuine signature}, valid or invalid ephemeral key; interleaved with genuine requests in both directions; every identity effect (Established, Request, Response, UnverifiableEnr, recipient-side session keys) must be justified by a delivered handshake whose id-signature verifies under the claimed id's public key over one of the node's own WHOAREYOUs to that address, or by the node's own dial; non-trivial = an attack datagram was injected; distinct = distinct event-log hash",
+    components_real: REAL_HANDLER,
+    components_stub: STUB_HANDLER,
+    assumptions: &["the oracle trusts the crate's ECDSA id-signature verification (reference vectors in the test suite)", "effects of sessions the node itself dialled are justified by its own request to that contact (the remote proves itself by decrypting under the static-key ECDH)"],
+};
+
+pub static C03: CheckSpec = CheckSpec {
+    id: "C03",
+    level: "fault_enumeration",
+    scenarios: &[
+        Scenario { name: "replay-enumerated", weight: 1, run: worlds::h_replay::run_enum },
+        Scenario { name: "replay-explored", weight: 1, run: worlds::h_replay::run_explore },
+    ],
+    runs_quick: 2 * worlds::h_replay::ENUM_SPACE + 12_000,
+    runs_thorough: 2 * worlds::h_replay::ENUM_SPACE + 600_000,
+    cap_quick_s: 75,
+    cap_thorough_s: 1200,
+    rule: "enumerated half: for each of 6 base exchanges (X dials V with/without V knowing X's record, V dials X with/without record, re-key after session loss, simultaneous dial plus a third node) every recorded handshake/WHOAREYOU datagram (index 0..7) x every later point (after the 1st..12th emitted datagram, after all challenges expired, while a later exchange runs) x {original source, other address, towards another node} is re-injected, one per run: 2016 cases, all executed in both tiers (runs whose datagram index does not exist inject nothing and are trivial); explored half: tape-chosen base, 1-4 replays, jitter and duplicates, extra requests; non-trivial = a replay was injected; distinct = distinct event-log hash",
+    components_real: REAL_HANDLER,
+    components_stub: STUB_HANDLER,
+    assumptions: &["a challenge's expiry is request_timeout after the WHOAREYOU or after the last delivered handshake that may have re-armed it (invalid-signature re-insert)", "the oracle trusts the crate's id-signature verification to attribute an accepted handshake to the challenge it answers"],
+};
+
+pub static ALL: &[&CheckSpec] = &[&C01, &C03, &C04, &C07, &C08, &C09, &C10, &C13, &C16, &C18, &C19];
 
 pub fn lookup(id: &str) -> Option<&'static CheckSpec> {
     ALL.iter().copied().find(|c| c.id.eq_ignore_ascii_case(id))
